@@ -10,7 +10,7 @@ DIMS = {
     "a": ("aa", "i", ["i1", "i2"]),
     "b": ("bb", "s", ["sx", "sy"]),
     "c": ("cc", "s", ["sp", "sq"]),
-    "d": ("dd", "n", ["su", "sv", "sx", "sw"]),   # shares the item 'x' with b: ambiguous without a dict; four
+    "d": ("dd", "n", ["su", "i2", "sx", "sw"]),   # shares the item x with b and the year 2 with a: ambiguous without a dict; four
                                                   # items, so that sub-selections can be runs in another order
     "e": ("ee", "s", ["sm"]),               # single item
 }
@@ -209,12 +209,24 @@ def gen_index(tier, seed):
             for it in DIMS[l][2]:
                 lines.append(f"getitem ${case.new()} $20 I:{it}"); stats["reads"] += 1
         lines.append(f"getitem ${case.new()} $20 I:snope"); stats["reads"] += 1
+        # labels that are numpy integers (years from np.arange / a DataFrame): equal to the int items
+        for l in order:
+            for it in DIMS[l][2]:
+                if it[0] == "i":
+                    lines.append(f"getitem ${case.new()} $20 I:j{it[1:]}"); stats["reads"] += 1
+                    stats["numpy_int_labels"] = stats.get("numpy_int_labels", 0) + 1
+                    if r.random() < 0.5:
+                        t = case.new()
+                        lines.append(f"copy ${t} $20")
+                        lines.append(f"setitem ${t} I:j{it[1:]} n:7"); stats["writes"] += 1
         if len(order) >= 2:
             for _ in range(6):
                 ls = r.sample(order, r.randint(1, len(order)))
                 items = [r.choice(DIMS[l][2]) for l in ls]
                 if r.random() < 0.3:
                     items.append(r.choice(DIMS[ls[0]][2]))  # two items of one dimension: a list
+                if r.random() < 0.4:
+                    items = [("j" + i[1:]) if i[0] == "i" else i for i in items]
                 lines.append(f"getitem ${case.new()} $20 T:{','.join(items)}"); stats["reads"] += 1
                 t = case.new()
                 lines.append(f"copy ${t} $20")
